@@ -70,6 +70,14 @@ def probe_env(op: Op, cfg: Dict[str, Any], seed: int, env: str, draws: int = 2, 
         return probe(op, cfg, seed, draws=draws, gdraws=gdraws, layout=env)
     if env.startswith("freeze="):
         return probe(op, cfg, seed, draws=draws, gdraws=gdraws, freeze=env.split("=")[1])
+    if env.startswith("argform="):
+        from models import ops as _ops
+
+        _ops.ARGFORM[0] = env.split("=")[1]
+        try:
+            return probe(op, cfg, seed, draws=draws, gdraws=gdraws)
+        finally:
+            _ops.ARGFORM[0] = None
     if env.startswith("after_dtype="):
         try:  # history: the same configuration is first used in a low-precision dtype
             probe(op, dict(cfg, dtype=env.split("=")[1]), seed, draws=1, gdraws=1)
